@@ -194,4 +194,12 @@ NoGhostInvoke == PropHolds(st).NoGhostInvoke
 StreamOwnerIsReserver == PropHolds(st).StreamOwnerIsReserver
 OkHasBody == PropHolds(st).OkHasBody
 ResetIsFresh == PropHolds(st).ResetIsFresh
+\* vacuity guards: each of these "invariants" must be violated (the antecedent is reachable)
+Unreach_RuntimeAfterRegistrations == ~PropAntecedent(st).RuntimeAfterRegistrations
+Unreach_NoEventBeforeAllNext == ~PropAntecedent(st).NoEventBeforeAllNext
+Unreach_DoneOnlyAfterAll == ~PropAntecedent(st).DoneOnlyAfterAll
+Unreach_NoGhostInvoke == ~PropAntecedent(st).NoGhostInvoke
+Unreach_StreamOwnerIsReserver == ~PropAntecedent(st).StreamOwnerIsReserver
+Unreach_OkHasBody == ~PropAntecedent(st).OkHasBody
+Unreach_ResetIsFresh == ~PropAntecedent(st).ResetIsFresh
 =============================================================================
